@@ -17,6 +17,8 @@ import JanetModel.Depth.Iterative
 import JanetModel.Depth.StackLemmas
 import JanetModel.Depth.Nest
 import JanetModel.Gen.Depth
+import JanetModel.Depth.GuardCert
+import JanetModel.Gen.DepthGuard
 import JanetModel.Gen.DepthStack
 namespace JanetModel.Props.C19
 open JanetModel.Depth
@@ -132,6 +134,82 @@ theorem cg_tables_consistent :
     JanetModel.Gen.Depth.names.length = JanetModel.Gen.Depth.nV ∧
     JanetModel.Gen.Depth.guard.length = JanetModel.Gen.Depth.nV ∧
     JanetModel.Gen.Depth.rank.length = JanetModel.Gen.Depth.nV := by decide +kernel
+
+
+/-! ### guards recognised on the IR control-flow graph (session 4) -/
+
+/-- ★ every certificate, every path: with a valid certificate each live CFG path from the function's entry to a block
+    with a recursive call takes the pass edge of a check (a conditional branch on `icmp PRED counter, K` whose other
+    side refuses) - the recursive call is dominated by the depth test. -/
+theorem guard_dominates_recursive_calls (c : GuardCert) (hok : certOK c = true) (p : List Nat) (t : Nat)
+    (hlive : LivePath c (0 :: p)) (hlast : t ∈ 0 :: p) (ht : t ∈ c.targets) :
+    ∃ e ∈ pairs (0 :: p), e ∈ passEdges c ∧
+      ∃ ch ∈ c.checks, e.1 = ch.block ∧ (refuseOnTrue c.kind ch.pred ch.k).isSome := by
+  obtain ⟨e, he, hpe⟩ := guard_dominates c hok p t hlive hlast ht
+  exact ⟨e, he, hpe, passEdge_from_check c e hpe⟩
+
+/-- non-vacuity: `if (depth == 0) panic; rec(depth - 1)` - block 0 tests, 1 refuses, 2 recurses; without the test
+    (no checks) the same CFG has no valid certificate whatever `safe` says -/
+def exCert (checks : List GCheck) (safe : Nat) : GuardCert :=
+  { fn := "f", kind := "counter", counter := "param0", charge := "arg-1", countdown := false, inits := [], n := 3,
+    cfg := [(0, 1), (0, 2)], checks := checks, targets := [2], stops := 0, stopCallees := [], safe := safe }
+example : certOK (exCert [⟨0, "eq", 0, 1, 2⟩] 0b011) = true := by decide
+example : certOK (exCert [] 0b011) = false := by decide
+example : certOK (exCert [] 0b001) = false := by decide
+example : certOK (exCert [⟨0, "eq", 0, 1, 2⟩] 0b111) = false := by decide
+/-- a compare that is not a limit test (`depth == 7`) gives no pass edge -/
+example : refuseOnTrue "counter" "eq" 7 = none := by decide
+example : refuseOnTrue "counter" "sge" 1024 = some true := by decide
+
+/-- functions of the current tree whose guard certificate is valid (CFG claim, limit, stops justified, helper) -/
+def certifiedGuards : List String :=
+  certified JanetModel.Gen.DepthGuard.recursionGuard JanetModel.Gen.DepthGuard.noreturnAttr
+    JanetModel.Gen.DepthGuard.noreturnCerts JanetModel.Gen.DepthGuard.certs
+
+/-- ★ per-run obligation: every guard mark of the call graph (`Gen.Depth.guard`, proposed by source idiom) is borne
+    out by a valid control-flow certificate extracted from the IR of the current tree, or is one of the written
+    exemptions; the compare constants / initial values are within JANET_RECURSION_GUARD. -/
+theorem cg_guards_certified :
+    guardsCertified JanetModel.Gen.Depth.names JanetModel.Gen.Depth.guard certifiedGuards
+      JanetModel.Gen.DepthGuard.bounded = true ∧
+    JanetModel.Gen.DepthGuard.recursionGuard = JanetModel.Gen.Depth.recursionGuard := by decide +kernel
+
+/-- what the obligation gives for each certified function (consequence, all paths) -/
+theorem cg_certified_dominates (c : GuardCert) (_hc : c ∈ JanetModel.Gen.DepthGuard.certs)
+    (hg : guardOK JanetModel.Gen.DepthGuard.recursionGuard JanetModel.Gen.DepthGuard.noreturnAttr
+      JanetModel.Gen.DepthGuard.noreturnCerts JanetModel.Gen.DepthGuard.certs c = true)
+    (p : List Nat) (t : Nat) (hlive : LivePath c (0 :: p)) (hlast : t ∈ 0 :: p) (ht : t ∈ c.targets) :
+    ∃ e ∈ pairs (0 :: p), e ∈ passEdges c := by
+  have hok : certOK c = true := by
+    simp only [guardOK, Bool.and_eq_true] at hg
+    exact hg.1.1.1.1.1
+  exact guard_dominates c hok p t hlive hlast ht
+
+/-- the functions allowed to assign `def->defs` (the reason janet_mark_funcdef / janet_disasm_defs are bounded):
+    the three creators of nested funcdefs, each under a depth guard, and the allocator (stores NULL) -/
+def defsWritersAllowed : List String := ["janet_asm1", "janet_funcdef_alloc", "janetc_pop_funcdef", "unmarshal_one_def"]
+
+/-- ★ per-run obligation: the domination facts behind three written exemptions hold on the IR of the current tree:
+    (1) in EVERY caller of janet_continue_no_check the call is dominated by the pass edge of a check of
+        janet_check_can_resume's result, and that helper cannot return 0 without passing the stackn test;
+    (2) doarg_1's self call is dominated by `argtype == T` and passes constants S ≠ T (depth ≤ 2);
+    (3) only the allowed functions store to JanetFuncDef.defs, and the three creators are certified guards. -/
+theorem cg_exemptions_certified :
+    (JanetModel.Gen.DepthGuard.noCheckCallers.all (fun nm =>
+      JanetModel.Gen.DepthGuard.noCheckCerts.any (fun c => c.fn == nm && c.kind == "via" && certOK c &&
+        !c.checks.isEmpty && !c.targets.isEmpty &&
+        stopsJustified JanetModel.Gen.DepthGuard.noreturnAttr JanetModel.Gen.DepthGuard.noreturnCerts c)) &&
+     !JanetModel.Gen.DepthGuard.noCheckCallers.isEmpty &&
+     JanetModel.Gen.DepthGuard.certs.any (fun h => h.fn == "janet_check_can_resume" && h.kind == "helper" && certOK h &&
+        limitOK JanetModel.Gen.DepthGuard.recursionGuard h && !h.checks.isEmpty && !h.targets.isEmpty)) = true ∧
+    (!JanetModel.Gen.DepthGuard.doargCerts.isEmpty &&
+     JanetModel.Gen.DepthGuard.doargCerts.all (fun c => c.fn == "doarg_1" && c.kind == "argconst" && certOK c &&
+        !c.targets.isEmpty &&
+        c.checks.all (fun ch => JanetModel.Gen.DepthGuard.doargSelfConsts.all (fun s => s != ch.k))) &&
+     !JanetModel.Gen.DepthGuard.doargSelfConsts.isEmpty) = true ∧
+    (JanetModel.Gen.DepthGuard.defsWriters.all (fun w => defsWritersAllowed.contains w) &&
+     ["janet_asm1", "unmarshal_one_def", "janetc_value"].all (fun w => certifiedGuards.contains w)) = true := by
+  decide +kernel
 
 /-! ### native stack bytes (session 3) -/
 
